@@ -271,7 +271,10 @@ func hostPlain(fr *frame, t types.Type, v value) (interface{}, *spiece) {
 		case x.k == types.Float64:
 			return nil, &spiece{k: pkFtoa, t: x.t}
 		case x.k == types.Bool:
-			return nil, &spiece{k: pkOpaque, s: "bool:" + x.t.String()}
+			if fr.branch(x.t) {
+				return true, nil
+			}
+			return false, nil
 		case kindSigned(x.k):
 			return nil, &spiece{k: pkItoa, t: Mk(OpSExt, SBV64, x.t)}
 		default:
@@ -362,9 +365,13 @@ func sprintf(fr *frame, format string, args []value) value {
 				ps = append(ps, symstrOf(runeToString(fr, t)).p...)
 				continue
 			}
-			if spec == "%d" || spec == "%v" {
-				_, sp := hostPlain(fr, nil, x)
-				ps = append(ps, *sp)
+			if spec == "%d" || spec == "%v" || (spec == "%t" && x.k == types.Bool) {
+				h, sp := hostPlain(fr, nil, x)
+				if sp != nil {
+					ps = append(ps, *sp)
+				} else {
+					lit(fmt.Sprintf(spec, h))
+				}
 				continue
 			}
 			ps = append(ps, spiece{k: pkOpaque, s: spec + ":" + x.t.String()})
@@ -412,8 +419,12 @@ func sprint(fr *frame, args []value, ln bool) value {
 			ps = append(ps, x.p...)
 			continue
 		case sym:
-			_, p := hostPlain(fr, nil, x)
-			ps = append(ps, *p)
+			h, p := hostPlain(fr, nil, x)
+			if p != nil {
+				ps = append(ps, *p)
+			} else {
+				ps = append(ps, spiece{k: pkBytes, s: fmt.Sprint(h)})
+			}
 			continue
 		}
 		h, p := hostFmtArg(fr, a)
@@ -730,6 +741,10 @@ func RegisterAPI(apiPkg string) {
 		lo, hi := args[1].(int), args[2].(int)
 		if hi < lo {
 			panic(engineErr("NdIntRange hi < lo"))
+		}
+		if v, ok := fr.i.run.cfg.Fixed[name]; ok {
+			fr.i.ndVals[name] = fmt.Sprint(v)
+			return v
 		}
 		c := fr.i.choose(hi-lo+1, name)
 		fr.i.ndVals[name] = fmt.Sprint(lo + c)
